@@ -171,6 +171,13 @@ def _quoted(text):
     return '"%s"' % str(text).replace("\\", "\\\\").replace('"', '\\"')
 
 
+def _html_text(text):
+    """Returns the text for use inside an HTML-like label: markup characters are
+    escaped, and backslashes doubled (Graphviz expands \\N, \\G, \\E ... and
+    collapses a doubled backslash in HTML-like labels as it does in plain ones)."""
+    return escape(str(text)).replace("\\", "\\\\")
+
+
 def htlm_link_if_uri(value):
     try:
         uri = value.uri
@@ -230,12 +237,12 @@ def prov_to_dot(
             ann_rows.extend(
                 ANNOTATION_ROW_TEMPLATE
                 % (
-                    escape(attr.uri),
-                    escape(str(attr)),
-                    ' href="%s"' % escape(value.uri)
+                    _html_text(attr.uri),
+                    _html_text(attr),
+                    ' href="%s"' % _html_text(value.uri)
                     if isinstance(value, Identifier)
                     else "",
-                    escape(
+                    _html_text(
                         str(value)
                         if not isinstance(value, datetime)
                         else str(value.isoformat())
@@ -272,9 +279,9 @@ def prov_to_dot(
                     # the main node text, whereas the identifier will be a
                     # kind of subtitle.
                     node_label = (
-                        f"<{escape(str(record.label))}<br />"
+                        f"<{_html_text(record.label)}<br />"
                         f'<font color="#333333" point-size="10">'
-                        f"{escape(str(record.identifier))}</font>>"
+                        f"{_html_text(record.identifier)}</font>>"
                     )
             else:
                 node_label = _quoted(record.identifier)
